@@ -9,7 +9,7 @@ exactly that identity; without one it returns the message untouched and writes n
 records as requester the queue key of the very item whose message it returns, and only on the Ok exit.
 Does NOT decide concurrent-client histories (argued from R08.3/R08.4 + C05)."""
 from ..sym import show, walk_expr
-from ..common import short
+from ..common import short, store_hits, place_text
 from .. import pathq
 from .c07 import socket_coroutine, wire_writes, msg_mutations, is_param_msg
 
@@ -27,11 +27,19 @@ RULES = {
 
 
 def marker_field(f, ty_suffix):
+    """field path (`name`, or `name.0` through a private newtype) of the socket's Option<PeerIdentity> marker, by type"""
+    def is_opt_id(ty):
+        return ty.startswith("std::option::Option<") and "PeerIdentity" in ty
     for p, a in f.adts.items():
         if p.endswith(ty_suffix):
             for fl in a["variants"][0]["fields"]:
-                if fl["ty"].startswith("std::option::Option<") and "PeerIdentity" in fl["ty"]:
+                if is_opt_id(fl["ty"]):
                     return fl["name"]
+            for fl in a["variants"][0]["fields"]:
+                for p2, a2 in f.adts.items():
+                    nm = p2.split("::", 1)[1] if p2.startswith("zeromq::") else p2
+                    if a2["kind"] == "Struct" and fl["ty"] in (nm, p2) and len(a2["variants"][0]["fields"]) == 1 and is_opt_id(a2["variants"][0]["fields"][0]["ty"]):
+                        return "%s.%s" % (fl["name"], a2["variants"][0]["fields"][0]["name"])
     return None
 
 
@@ -46,7 +54,7 @@ def is_marker(x, name):
             x = x[3]
         else:
             break
-    return isinstance(x, tuple) and x and x[0] == "field" and x[2] == name
+    return isinstance(x, tuple) and x and x[0] == "field" and place_text(x).endswith("." + name)
 
 
 def marker_decisions(p, name, upto=None):
@@ -95,7 +103,7 @@ def run(ctx, f, rep):
             if dec and dec[0] is True and p.end == "return":
                 nref += 1
                 ww = wire_writes(p)
-                st = [s for s in p.events if s.kind == "store" and s.place.endswith("." + mreq)]
+                st = [s for s in p.events if store_hits(s, mreq)]
                 muts = msg_mutations(p, is_param_msg)
                 pops = [ev for i, ev in pathq.calls(p, "pop", "push") if "SegQueue" in ev.name]
                 rts = p.ret is not None and "ReturnToSender" in show(p.ret) and is_param_msg(p.ret)
@@ -104,7 +112,7 @@ def run(ctx, f, rep):
                           "(writes=%d marker stores=%d message mutations=%s rotation ops=%d returns message=%s)" % (len(ww), len(st), [short(m.name) for _, m in muts], len(pops), rts), co.loc())
             if p.end == "return" and pathq.ret_kind(p) == "Ok":
                 ww = wire_writes(p)
-                st = [(i, s) for i, s in enumerate(p.events) if s.kind == "store" and s.place.endswith("." + mreq)]
+                st = [(i, s) for i, s in enumerate(p.events) if store_hits(s, mreq)]
                 ok = False
                 why = "no marker store"
                 if ww and st:
@@ -135,7 +143,7 @@ def run(ctx, f, rep):
                 rep.check(pathq.ret_kind(p) == "Err" and not reads, "R08.2", "R08.2|recv-without-request",
                           "recv without an outstanding request returns Err and reads nothing (reads: %s)" % [short(e.name) for _, e in reads], co.loc())
             # marker cleared only after the last yield on the path
-            clear = [i for i, s in enumerate(p.events) if (s.kind == "store" and s.place.endswith("." + mreq)) or
+            clear = [i for i, s in enumerate(p.events) if (store_hits(s, mreq)) or
                      (s.kind == "call" and short(s.name) in ("take", "replace") and s.args and any(isinstance(x, tuple) and x and x[0] == "field" and x[2] == mreq for x in walk_expr(s.args[0])))]
             yields = [i for i, s in enumerate(p.events) if s.kind == "yield"]
             polls = [i for i, s in enumerate(p.events) if pathq.is_poll(s) and (s.name.endswith("}") or "Next" in s.name)]
@@ -177,7 +185,7 @@ def run(ctx, f, rep):
         for p in pathq.paths(f, co, max_visits=2):
             if p.end != "return":
                 continue
-            st = [s for s in p.events if s.kind == "store" and s.place.endswith("." + mrep)]
+            st = [s for s in p.events if store_hits(s, mrep)]
             rk = pathq.ret_kind(p)
             if rk == "Ok":
                 nok += 1
